@@ -124,6 +124,28 @@ pub fn flat() -> Tree {
     player(1, "x", vec![("a", player(2, "y", vec![("l", term(1)), ("r", term(1))])), ("b", term(1))])
 }
 
+/// rock-paper-scissors-like simultaneous game (player two does not see player one's move); `w`
+/// weights the payoffs so that the equilibrium mixes all three actions unevenly
+pub fn rps(w: [i64; 3]) -> Tree {
+    let beats = |a: usize, b: usize| -> i64 {
+        if a == b {
+            0
+        } else if (a + 1) % 3 == b {
+            -w[b]
+        } else {
+            w[a]
+        }
+    };
+    let names = ["rock", "paper", "scissors"];
+    player(
+        1,
+        "one",
+        (0..3)
+            .map(|a| (names[a], player(2, "two", (0..3).map(|b| (names[b], term(beats(a, b)))).collect())))
+            .collect(),
+    )
+}
+
 pub fn all() -> Vec<(String, Tree)> {
     let mut v = vec![
         ("pennies".to_string(), pennies()),
@@ -133,6 +155,8 @@ pub fn all() -> Vec<(String, Tree)> {
         ("lonely".to_string(), lonely()),
         ("flat".to_string(), flat()),
     ];
+    v.push(("rps".to_string(), rps([1, 1, 1])));
+    v.push(("rps-weighted".to_string(), rps([1, 2, 3])));
     for d in [2, 4, 6, 8] {
         v.push((format!("chain{d}"), chain(d)));
     }
